@@ -57,7 +57,8 @@ def ent(rel, size, sec, nsec, ino):
 def special_ops(s, rng):
     """replacements of a file by a directory or link and back, swaps, inode reuse"""
     a = s.arr
-    k = rng.below(6)
+    k = rng.below(8)
+    if k == 7: k = 6
     files = s.existing_files()
     if not files: return
     d, rel = rng.choice(files)
@@ -80,6 +81,17 @@ def special_ops(s, rng):
         tmp = p + '.restoretmp'
         with open(tmp, 'wb') as f: f.write(data)
         os.utime(tmp, ns=(st.st_mtime_ns, st.st_mtime_ns)); os.rename(tmp, p); s.log('restore %s/%r' % (d, rel))
+    elif k == 6:    # a link changes kind at the same path: symlink -> hardlink of a file of the disk, hardlink -> symlink
+        for dp, dn, fn in os.walk(a.ddir(d)):
+            for n in fn:
+                q = os.path.join(dp, n)
+                if os.path.islink(q):
+                    os.unlink(q); os.link(p, q); s.log('symlink %s becomes a hardlink to %s/%r' % (q, d, rel)); return
+                if os.path.isfile(q) and os.lstat(q).st_nlink > 1 and q != p:
+                    os.unlink(q); os.symlink('was_hardlink', q); s.log('hardlink %s becomes a symlink' % q); return
+        # no link yet: make a symlink that a later op can turn into a hardlink
+        q = p + '.lnk'
+        if not os.path.lexists(q): os.symlink(os.path.basename(p), q); s.log('symlink %s created' % q)
     else:           # link retarget / link -> file
         for dp, dn, fn in os.walk(a.ddir(d)):
             for n in fn:
@@ -159,6 +171,12 @@ def scenario(exe, root, seed, stats):
         lk = {'equal': 0, 'updated': 0, 'added': 0, 'removed': 0}
         for disk in a.disks:
             rec = {sub: lt for kk, m, sub, lt in dec.links if dec.maps[m][0].decode('latin-1') == disk}
+            # hardlinks: the first path of an inode met by the walk is the file, every later one a link to it
+            first = {}
+            for x in walk_order(a, disk, alpha):
+                if x[5] > 1:
+                    if x[4] in first: links[disk][x[0]] = first[x[4]]
+                    else: first[x[4]] = x[0]
             if rec != links[disk]: link_changed = True
             for sub, lt in links[disk].items():
                 if sub not in rec: lk['added'] += 1
